@@ -113,7 +113,7 @@ def removal_census(fx, res, rule):
                 # iterator-chain form of the same collection: matcher.arg_ids().filter_map(find).filter(|o| o.overrides.contains(arg.id)).map(get_id).collect()
                 # every element passed a filter whose closure is exactly that containment test, and no other filter drops elements
                 flt = [x for x in top.calls_to(r"Iterator::filter$") if expr(top, x.dest) and expr(top, x.dest) in m2.group(1)]
-                tests = [strip_transparent(expr(cb_, 0)) for x in flt for cb_ in closure_bodies(fx, x)[-1:]]
+                tests = [strip_transparent(expr(cb_, 0)) for x in flt for cb_ in own_closures(fx, x)]
                 okb_ = bool(tests) and all(re.fullmatch(r"contains\([\w.]+\.overrides,get_id\((arg|arg1\.0)\)\)", t_) for t_ in tests)
             if fn_ == "react" and e == "get_id(arg)":
                 # the reacting argument's own record is replaced by the occurrence being recorded (Set/SetTrue/SetFalse/Count)
